@@ -12,7 +12,11 @@ use std::panic::{AssertUnwindSafe, catch_unwind};
 use std::process::{Child, Command, Stdio};
 use std::time::{Duration, Instant};
 
-pub const VERIF_DIR: &str = "/verif";
+/// root of the verification tree (evidence, replays, known findings, scratch); the `check`
+/// wrapper sets VERIF_DIR to its own directory so that a snapshot of /verif writes into itself
+pub fn verif_dir() -> String {
+    std::env::var("VERIF_DIR").unwrap_or_else(|_| "/verif".to_string())
+}
 pub const DEFAULT_SEED: u64 = 20260921;
 const WATCHDOG_S: u64 = 300;
 const MINIMISE_BUDGET_S: u64 = 30;
@@ -184,7 +188,7 @@ pub struct FoundViolation {
 }
 
 fn run_dir() -> String {
-    let d = format!("{VERIF_DIR}/target/run");
+    let d = format!("{}/target/run", verif_dir());
     let _ = std::fs::create_dir_all(&d);
     d
 }
@@ -219,7 +223,7 @@ pub fn tune_process() {
 pub fn worker<S: Scenario>(o: &Opts) {
     tune_process();
     install_panic_hook();
-    let mut ctx = Ctx::load(&format!("{VERIF_DIR}/known_findings.txt"));
+    let mut ctx = Ctx::load(&format!("{}/known_findings.txt", verif_dir()));
     ctx.tier_thorough = o.tier == Tier::Thorough;
     let out = o.out.clone().unwrap_or_else(|| harness_error("worker needs --out"));
     let cur = std::fs::OpenOptions::new()
@@ -324,7 +328,7 @@ pub fn cmd_exec<S: Scenario>(o: &Opts) {
     let path = o.file.clone().unwrap_or_else(|| harness_error("exec needs a case file"));
     let txt = std::fs::read_to_string(&path).unwrap_or_else(|_| harness_error("cannot read case file"));
     let case: S::Case = serde_json::from_str(&txt).unwrap_or_else(|e| harness_error(&format!("bad case: {e}")));
-    let mut ctx = Ctx::load(&format!("{VERIF_DIR}/known_findings.txt"));
+    let mut ctx = Ctx::load(&format!("{}/known_findings.txt", verif_dir()));
     ctx.tier_thorough = o.tier == Tier::Thorough;
     let out = execute_caught::<S>(&case, &ctx);
     println!("{}", serde_json::to_string(&out).unwrap());
@@ -428,7 +432,7 @@ pub struct ReplayFile {
 
 pub fn cmd_replay<S: Scenario>(path: &str, rf: &ReplayFile) -> i32 {
     install_panic_hook();
-    let ctx = Ctx::load(&format!("{VERIF_DIR}/known_findings.txt"));
+    let ctx = Ctx::load(&format!("{}/known_findings.txt", verif_dir()));
     let outcome: Option<Outcome> = if rf.crash {
         exec_in_child(S::ID, &rf.case, 60)
     } else {
@@ -519,7 +523,7 @@ pub fn parent<S: Scenario>(o: &Opts) -> i32 {
     install_panic_hook();
     let t0 = Instant::now();
     let ctx = {
-        let mut c = Ctx::load(&format!("{VERIF_DIR}/known_findings.txt"));
+        let mut c = Ctx::load(&format!("{}/known_findings.txt", verif_dir()));
         c.tier_thorough = o.tier == Tier::Thorough;
         c
     };
@@ -770,7 +774,7 @@ pub fn parent<S: Scenario>(o: &Opts) -> i32 {
         "violations": if exit == 1 { reported.len().max(1) } else { 0 },
     });
     if !o.no_evidence {
-        let path = o.evidence.clone().unwrap_or(format!("{VERIF_DIR}/evidence/{}.json", S::ID));
+        let path = o.evidence.clone().unwrap_or(format!("{}/evidence/{}.json", verif_dir(), S::ID));
         let _ = std::fs::create_dir_all(std::path::Path::new(&path).parent().unwrap());
         let mut f = std::fs::File::create(&path).unwrap_or_else(|_| harness_error("cannot write evidence"));
         f.write_all(serde_json::to_string_pretty(&ev).unwrap().as_bytes()).unwrap();
@@ -796,7 +800,7 @@ pub fn parent<S: Scenario>(o: &Opts) -> i32 {
 }
 
 fn write_replay<S: Scenario>(o: &Opts, run: u64, v: &Violation, case: &Value, original: &Value, steps: u64, crash: bool) -> String {
-    let dir = format!("{VERIF_DIR}/replays/{}", S::ID);
+    let dir = format!("{}/replays/{}", verif_dir(), S::ID);
     let _ = std::fs::create_dir_all(&dir);
     let path = format!("{dir}/{}-{}-{}.json", o.seed, run, v.oracle);
     let rf = ReplayFile {
